@@ -2,6 +2,7 @@ package main
 
 import (
 	"go/ast"
+	"go/token"
 	"go/types"
 
 	"golang.org/x/tools/go/packages"
@@ -499,6 +500,83 @@ func goTarget(p *packages.Package, root ast.Node, call *ast.CallExpr) *ast.FuncL
 			if info.Defs[fd.Name] == types.Object(fn) && fd.Body != nil {
 				return &ast.FuncLit{Type: fd.Type, Body: fd.Body}
 			}
+		}
+	}
+	return nil
+}
+
+// pkgVarField: e is v.f where v is a package-level variable of p that is initialised with a struct literal and that
+// nothing in the package assigns to, takes the address of, or stores a field of: the value written for f in the
+// literal (nil when e is not that, or the field is absent from the literal).
+func pkgVarField(p *packages.Package, e ast.Expr) ast.Expr {
+	info := p.TypesInfo
+	se, ok := ast.Unparen(e).(*ast.SelectorExpr)
+	if !ok {
+		return nil
+	}
+	id, ok := ast.Unparen(se.X).(*ast.Ident)
+	if !ok {
+		return nil
+	}
+	v, ok := info.ObjectOf(id).(*types.Var)
+	if !ok || v.Pkg() != p.Types || v.Parent() != p.Types.Scope() {
+		return nil
+	}
+	cl, ok := ast.Unparen(pkgVarInit(p, v.Name())).(*ast.CompositeLit)
+	if !ok || pkgVarInit(p, v.Name()) == nil {
+		return nil
+	}
+	mutated := false
+	for _, f := range p.Syntax {
+		ast.Inspect(f, func(n ast.Node) bool {
+			switch x := n.(type) {
+			case *ast.AssignStmt:
+				for _, l := range x.Lhs {
+					root := ast.Unparen(l)
+					for {
+						switch r := root.(type) {
+						case *ast.SelectorExpr:
+							root = ast.Unparen(r.X)
+							continue
+						case *ast.IndexExpr:
+							root = ast.Unparen(r.X)
+							continue
+						}
+						break
+					}
+					if rid, ok := root.(*ast.Ident); ok && info.ObjectOf(rid) == types.Object(v) {
+						mutated = true
+					}
+				}
+			case *ast.UnaryExpr:
+				if x.Op == token.AND {
+					root := ast.Unparen(x.X)
+					for {
+						if r, ok := root.(*ast.SelectorExpr); ok {
+							root = ast.Unparen(r.X)
+							continue
+						}
+						break
+					}
+					if rid, ok := root.(*ast.Ident); ok && info.ObjectOf(rid) == types.Object(v) {
+						mutated = true
+					}
+				}
+			}
+			return true
+		})
+	}
+	if mutated {
+		return nil
+	}
+	st, _ := info.TypeOf(cl).Underlying().(*types.Struct)
+	for i, el := range cl.Elts {
+		if kv, ok := el.(*ast.KeyValueExpr); ok {
+			if k, ok := kv.Key.(*ast.Ident); ok && k.Name == se.Sel.Name {
+				return kv.Value
+			}
+		} else if st != nil && i < st.NumFields() && st.Field(i).Name() == se.Sel.Name {
+			return el
 		}
 	}
 	return nil
